@@ -272,6 +272,9 @@ def _specimpl(gen, trait, rhs_t, self_t, out_t):
 }}"""
 
 
+T_OK_HINT = " broadcast use lemma_t_ok_add, lemma_t_ok_neg, lemma_t_ok_aff;"
+
+
 def op_items(path, props_addsub=("C04",), props_mul=("C05",)):
     s = src(path)
     items = []
@@ -295,17 +298,17 @@ def op_items(path, props_addsub=("C04",), props_mul=("C05",)):
         pname = pm.group(1) if pm else None
         if trait in ("Add", "Sub"):
             op = "te_add" if trait == "Add" else "te_sub"
-            ens = f"to_affine({view('r', out_t)}) == to_affine({op}({view('self', self_t)}, {view(pname, rhs_t)}))"
-            items.append(Item(path, hdr, [Fn(fn.name, ensures=ens, preamble=BUO, props=props_addsub, attrs=R12)], keep_assoc=("Output",),
+            ens = f"to_affine({view('r', out_t)}) == to_affine({op}({view('self', self_t)}, {view(pname, rhs_t)})), t_ok({view('r', out_t)})"
+            items.append(Item(path, hdr, [Fn(fn.name, ensures=ens, preamble=BUO + T_OK_HINT, props=props_addsub, attrs=R12)], keep_assoc=("Output",),
                               pre=_specimpl(gen, trait, rhs_t, self_t, out_t)))
         elif trait in ("AddAssign", "SubAssign"):
             op = "te_add" if trait == "AddAssign" else "te_sub"
-            ens = f"to_affine({view('final(self)', self_t)}) == to_affine({op}({view('old(self)', self_t)}, {view(pname, rhs_t)}))"
-            items.append(Item(path, hdr, [Fn(fn.name, ensures=ens, preamble=BUO, props=props_addsub, attrs=R12)],
+            ens = f"to_affine({view('final(self)', self_t)}) == to_affine({op}({view('old(self)', self_t)}, {view(pname, rhs_t)})), t_ok({view('final(self)', self_t)})"
+            items.append(Item(path, hdr, [Fn(fn.name, ensures=ens, preamble=BUO + T_OK_HINT, props=props_addsub, attrs=R12)],
                               pre=_specimpl(gen, trait, rhs_t, self_t, out_t)))
         elif trait == "Neg":
-            ens = f"to_affine({view('r', out_t)}) == to_affine(te_neg({view('self', self_t)}))"
-            items.append(Item(path, hdr, [Fn(fn.name, ensures=ens, preamble=BUO, props=props_addsub, attrs=R12)], keep_assoc=("Output",),
+            ens = f"to_affine({view('r', out_t)}) == to_affine(te_neg({view('self', self_t)})), t_ok({view('self', self_t)}) ==> t_ok({view('r', out_t)})"
+            items.append(Item(path, hdr, [Fn(fn.name, ensures=ens, preamble=BUO + T_OK_HINT, props=props_addsub, attrs=R12)], keep_assoc=("Output",),
                               pre=_specimpl(gen, trait, rhs_t, self_t, out_t)))
         elif trait == "Mul":
             # one operand is the scalar, the other the point
@@ -428,7 +431,7 @@ def element_unit():
     open spec fn obeys_eq_spec() -> bool { true }
     open spec fn eq_spec(&self, other: &Element) -> bool { spec_eq(repr(self.inner), repr(other.inner)) }
 }"""
-    items.append(Item(P_, "impl PartialEq for Element", [Fn("eq", props=("C08",), preamble=BUE, attrs=R12)], pre=pre))
+    items.append(Item(P_, "impl PartialEq for Element", [Fn("eq", props=("C08", "C01"), preamble=BUE, attrs=R12)], pre=pre))
     items.append(Item(P_, "impl Element", [Fn("is_identity", ensures="r == spec_is_identity(repr(self.inner))", props=("C08",), preamble=BUE)]))
     items.append(Item(P_, "impl Zero for Element", [
         Fn("zero", ensures="repr(r.inner) == id4()", props=("C06", "C08"), preamble=BUE),
@@ -441,7 +444,7 @@ def element_unit():
     open spec fn obeys_eq_spec() -> bool { true }
     open spec fn eq_spec(&self, other: &AffinePoint) -> bool { spec_eq(arepr(self.inner), arepr(other.inner)) }
 }"""
-    items.append(Item(A_, "impl PartialEq for AffinePoint", [Fn("eq", props=("C08",), preamble=BUE, attrs=R12)], pre=pre))
+    items.append(Item(A_, "impl PartialEq for AffinePoint", [Fn("eq", props=("C08", "C01"), preamble=BUE, attrs=R12)], pre=pre))
     for (path_, hdr, a_t, vw) in [
         (P_, "impl core::iter::Sum<Self> for Element", "Element", "views_e"),
         (P_, "impl<'a> core::iter::Sum<&'a Element> for Element", "&'a Element", "views_er"),
